@@ -326,6 +326,8 @@ def run(ctx):
     boost = 4 if getattr(ctx, "search_boost", False) else 1
     drv_lines = []
     drv_meta = []
+    act_lines = []
+    act_meta = []
     nviol = [0]
 
     def judge(r, sched_list, program, how):
@@ -346,6 +348,14 @@ def run(ctx):
             if lines is not None:
                 drv_lines.extend(lines)
                 drv_meta.append((program, list(s.choices), len(lines)))
+        if not bad and len(act_lines) < ctx.n(40000, 400000) and any(
+                op[0] in ("enable", "disable") for ops in program["threads"] for op in ops):
+            from harness import c02_trace
+            for mod in sorted({op[1] for ops in program["threads"] for op in ops if op[0] == "log"}):
+                got = c02_trace.act_lines(r, mod)
+                if got is not None:
+                    act_lines.extend(got[0])
+                    act_meta.append((program, list(s.choices), mod, got))
         return bad
 
     # corpus first
@@ -401,6 +411,26 @@ def run(ctx):
                           % (i, drv_lines[pos - n + i], o, json.dumps(program), json.dumps(schedule)))
                 break
         ctx.stat("acceptor_events", len(drv_lines))
+
+    # second acceptor: the activation-related accesses, projected on one module name, replayed on Activation.step;
+    # the model's hit/miss and the rule-set version each call used are compared with what the real call did
+    if act_lines:
+        from harness import c02_trace
+        out = core.Driver("C02act").run(act_lines)
+        pos = 0
+        for program, schedule, mod, (lines, meta, rules) in act_meta:
+            chunk = out[pos:pos + len(lines)]
+            pos += len(lines)
+            ctx.stat("activation_traces")
+            ctx.stat("activation_calls", sum(1 for m in meta if m and m[0] == "done"))
+            ctx.stat("activation_cache_misses", sum(1 for m in meta if m and m[0] == "readEn" and m[1]))
+            ctx.stat("activation_versions", len(rules))
+            dis = c02_trace.act_judge(lines, meta, rules, chunk, mod, _spec_enabled)
+            if dis:
+                ctx.stat("activation_disagreements")
+                ctx.broke("correspondence Activation.accepts",
+                          "%s\nprogram=%s schedule=%s" % (dis[0], json.dumps(program), json.dumps(schedule)))
+                break
 
 
 def acceptor_lines(run):
